@@ -88,6 +88,11 @@ func runC14(c *Ctx) {
 			c.MP(fn, "batches: preparation of this batch before its jobs", runs[1:], 1, GOk("call(pref)(ctx, (* - 1))"))
 		}
 		c.MP(fn, "success: positive size", c.SuccessReturns(fn), 1, GCmp("size", ">=", "1"))
+		if len(runs) >= 2 {
+			c.MP(fn, "single-batch path exactly for size <= limit", runs[:1], 1, GCmp("size", "<=", "limit"))
+			c.MP(fn, "batched path exactly for size > limit", runs[1:], 1, GCmp("size", ">", "limit"))
+			c.ArgIs(fn, "single batch runs all size jobs", runs[:1], 1, 2, "size")
+		}
 	}
 }
 
